@@ -8,10 +8,10 @@ Property theorems about `Teakra.Dma` / `Teakra.DmaChannel` (model of `src/dma.cp
 slice.  Helper lemmas are `private`.
 
 * `dma_trace` — the cursor pairs visited by the `Tick` loop are the closed-form list `spec`
-  (zero sizes as one, double-word mode counting by two), for every configuration except
-  `Excluded` (`dword_mode ≠ 0 ∧ size0 = 0xFFFF`);
-* `dma_hangs`, `dma_trace_excluded` — on the excluded configurations the C++ loop does not end
-  (**finding**);
+  (zero sizes as one, double-word mode counting by two), for **every** configuration (the code
+  under test has the repaired 32-bit cursor counters);
+* `dma_hangs_upstream` — with the upstream `u16` counters the loop did not end for
+  `dword_mode ≠ 0 ∧ size0 = 0xFFFF` (the repaired defect, kept as a proved witness);
 * `dma_terminates`, `dma_run_eq_fold`, `dma_memory`, `dma_memory_frame`, `dma_irq_once`;
 * AHBM: `aligned_unit_exact_*`, `burst_transparent_write`, `burst_transparent_read`, and the
   excluded points as proved examples (`burst_tail_lost`, `burst_tail_stale`,
@@ -46,9 +46,10 @@ def srcAt (c : DmaChannel) (k2 k1 k0 : Nat) : U32 :=
 def dstAt (c : DmaChannel) (k2 k1 k0 : Nat) : U32 :=
   dstBase c + BitVec.ofNat 32 (elemOff c.dstStep0.toNat c.dstStep1.toNat c.dstStep2.toNat (c.n0 - 1) (c.n1 - 1) k2 k1 k0)
 
-/-- The one family of configurations on which the C++ loop does not end: double-word mode counts
-dimension 0 by two in a `u16`, and with `size0 = 0xFFFF` the counter steps 0xFFFE → 0 without ever
-being `≥ size0` (see `dma_hangs`). -/
+/-- The one family of configurations on which the *upstream* C++ loop did not end: double-word mode
+counted dimension 0 by two in a `u16`, and with `size0 = 0xFFFF` the counter stepped 0xFFFE → 0
+without ever being `≥ size0` (see `dma_hangs_upstream`).  Not a hypothesis of any theorem about
+the repaired code. -/
 def Excluded (c : DmaChannel) : Prop := c.dwordMode ≠ 0 ∧ c.size0 = 0xFFFF
 instance : DecidablePred Excluded := fun _ => inferInstanceAs (Decidable (_ ∧ _))
 
@@ -86,71 +87,71 @@ private theorem add_step (b : U32) (x : Nat) (s : U16) :
   simp [BitVec.toNat_add, BitVec.toNat_setWidth]
 
 
-private theorem cond0 (c : DmaChannel) (k0 : Nat) (hx : ¬ Excluded c)
-    (ctr : U16) (h0 : ctr.toNat = (if c.dwordMode ≠ 0 then 2 else 1) * k0) (b0 : k0 < c.n0) :
-    ((ctr + (if c.dwordMode ≠ 0 then 2 else 1) ≥ c.size0) ↔ ¬ k0 + 1 < c.n0) ∧
-    (ctr + (if c.dwordMode ≠ 0 then 2 else 1 : U16)).toNat = (if c.dwordMode ≠ 0 then 2 else 1) * (k0 + 1) := by
-  unfold Excluded at hx
+private theorem cond0 (c : DmaChannel) (k0 : Nat)
+    (ctr : U32) (h0 : ctr.toNat = (if c.dwordMode ≠ 0 then 2 else 1) * k0) (b0 : k0 < c.n0) :
+    ((ctr + (if c.dwordMode ≠ 0 then 2 else 1) ≥ c.size0.setWidth 32) ↔ ¬ k0 + 1 < c.n0) ∧
+    (ctr + (if c.dwordMode ≠ 0 then 2 else 1 : U32)).toNat = (if c.dwordMode ≠ 0 then 2 else 1) * (k0 + 1) := by
   unfold n0 at *
+  have hs := c.size0.isLt
   by_cases hd : c.dwordMode = 0
   · simp only [hd, ne_eq, not_true_eq_false, if_false] at *
     constructor
     · constructor <;> intro h <;> bv_omega
     · bv_omega
-  · have hs : c.size0 ≠ 0xFFFF := fun h => hx ⟨hd, h⟩
-    simp only [hd, ne_eq, not_false_eq_true, if_true] at *
+  · simp only [hd, ne_eq, not_false_eq_true, if_true] at *
     constructor
     · constructor <;> intro h <;> bv_omega
     · bv_omega
 
-private theorem cond1 (size ctr : U16) (k : Nat) (h : ctr.toNat = k) (b : k < max size.toNat 1) :
-    ((ctr + 1 ≥ size) ↔ ¬ k + 1 < max size.toNat 1) ∧ (ctr + 1).toNat = k + 1 := by
+private theorem cond1 (size : U16) (ctr : U32) (k : Nat) (h : ctr.toNat = k) (b : k < max size.toNat 1) :
+    ((ctr + 1 ≥ size.setWidth 32) ↔ ¬ k + 1 < max size.toNat 1) ∧ (ctr + 1).toNat = k + 1 := by
+  have hs := size.isLt
   constructor
   · constructor <;> intro h <;> bv_omega
   · bv_omega
 
 private theorem sameCfg_advance (c : DmaChannel) : SameCfg (advance c) c := by
-  by_cases h0 : c.counter0 + (if c.dwordMode ≠ 0 then 2 else 1) ≥ c.size0
-  · by_cases h1 : c.counter1 + 1 ≥ c.size1
-    · by_cases h2 : c.counter2 + 1 ≥ c.size2
+  by_cases h0 : c.counter0 + (if c.dwordMode ≠ 0 then 2 else 1) ≥ c.size0.setWidth 32
+  · by_cases h1 : c.counter1 + 1 ≥ c.size1.setWidth 32
+    · by_cases h2 : c.counter2 + 1 ≥ c.size2.setWidth 32
       · simp only [advance, h0, h1, h2, if_true, SameCfg, and_self]
       · simp only [advance, h0, h1, h2, if_true, if_false, SameCfg, and_self]
     · simp only [advance, h0, h1, if_true, if_false, SameCfg, and_self]
   · simp only [advance, h0, if_false, SameCfg, and_self]
 
 
-/-- `counter0 += 1` / `counter0 += 2` in `u16`. -/
-def ctr0' (c : DmaChannel) : U16 := c.counter0 + (if c.dwordMode ≠ 0 then 2 else 1)
+/-- `counter0 += 1` / `counter0 += 2` in `u32`. -/
+def ctr0' (c : DmaChannel) : U32 := c.counter0 + (if c.dwordMode ≠ 0 then 2 else 1)
 
-private theorem advance_0 (c : DmaChannel) (h : ¬ ctr0' c ≥ c.size0) :
+private theorem advance_0 (c : DmaChannel) (h : ¬ ctr0' c ≥ c.size0.setWidth 32) :
     advance c = { c with counter0 := ctr0' c,
                          currentSrc := c.currentSrc + c.srcStep0.setWidth 32,
                          currentDst := c.currentDst + c.dstStep0.setWidth 32 } := by
   unfold ctr0' at h
   simp only [advance, h, if_false, ctr0']
 
-private theorem advance_1 (c : DmaChannel) (h : ctr0' c ≥ c.size0) (h1 : ¬ c.counter1 + 1 ≥ c.size1) :
+private theorem advance_1 (c : DmaChannel) (h : ctr0' c ≥ c.size0.setWidth 32) (h1 : ¬ c.counter1 + 1 ≥ c.size1.setWidth 32) :
     advance c = { c with counter0 := 0, counter1 := c.counter1 + 1,
                          currentSrc := c.currentSrc + c.srcStep1.setWidth 32,
                          currentDst := c.currentDst + c.dstStep1.setWidth 32 } := by
   unfold ctr0' at h
   simp only [advance, h, h1, if_true, if_false]
 
-private theorem advance_2 (c : DmaChannel) (h : ctr0' c ≥ c.size0) (h1 : c.counter1 + 1 ≥ c.size1)
-    (h2 : ¬ c.counter2 + 1 ≥ c.size2) :
+private theorem advance_2 (c : DmaChannel) (h : ctr0' c ≥ c.size0.setWidth 32) (h1 : c.counter1 + 1 ≥ c.size1.setWidth 32)
+    (h2 : ¬ c.counter2 + 1 ≥ c.size2.setWidth 32) :
     advance c = { c with counter0 := 0, counter1 := 0, counter2 := c.counter2 + 1,
                          currentSrc := c.currentSrc + c.srcStep2.setWidth 32,
                          currentDst := c.currentDst + c.dstStep2.setWidth 32 } := by
   unfold ctr0' at h
   simp only [advance, h, h1, h2, if_true, if_false]
 
-private theorem advance_3 (c : DmaChannel) (h : ctr0' c ≥ c.size0) (h1 : c.counter1 + 1 ≥ c.size1)
-    (h2 : c.counter2 + 1 ≥ c.size2) :
+private theorem advance_3 (c : DmaChannel) (h : ctr0' c ≥ c.size0.setWidth 32) (h1 : c.counter1 + 1 ≥ c.size1.setWidth 32)
+    (h2 : c.counter2 + 1 ≥ c.size2.setWidth 32) :
     advance c = { c with counter0 := 0, counter1 := 0, counter2 := c.counter2 + 1, running := 0 } := by
   unfold ctr0' at h
   simp only [advance, h, h1, h2, if_true]
 
-private theorem inv_step (c0 c : DmaChannel) (hx : ¬ Excluded c0) (k2 k1 k0 : Nat) (h : Inv c0 c k2 k1 k0) :
+private theorem inv_step (c0 c : DmaChannel) (k2 k1 k0 : Nat) (h : Inv c0 c k2 k1 k0) :
     (k0 + 1 < c0.n0 → Inv c0 (advance c) k2 k1 (k0 + 1)) ∧
     (¬ k0 + 1 < c0.n0 → k1 + 1 < c0.n1 → Inv c0 (advance c) k2 (k1 + 1) 0) ∧
     (¬ k0 + 1 < c0.n0 → ¬ k1 + 1 < c0.n1 → k2 + 1 < c0.n2 → Inv c0 (advance c) (k2 + 1) 0 0) ∧
@@ -160,15 +161,15 @@ private theorem inv_step (c0 c : DmaChannel) (hx : ¬ Excluded c0) (k2 k1 k0 : N
     have := sameCfg_advance c
     unfold SameCfg at *; simp_all
   obtain ⟨e0, e1, e2, es0, es1, es2, ed0, ed1, ed2, esp, edp, edw, eah, e3, e4, e5, e6⟩ := cfg
-  have C0 := cond0 c0 k0 hx c.counter0 h0 b0
-  have C1 : (c.counter1 + 1 ≥ c0.size1 ↔ ¬ k1 + 1 < c0.n1) ∧ (c.counter1 + 1).toNat = k1 + 1 :=
+  have C0 := cond0 c0 k0 c.counter0 h0 b0
+  have C1 : (c.counter1 + 1 ≥ c0.size1.setWidth 32 ↔ ¬ k1 + 1 < c0.n1) ∧ (c.counter1 + 1).toNat = k1 + 1 :=
     cond1 c0.size1 c.counter1 k1 h1 b1
-  have C2 : (c.counter2 + 1 ≥ c0.size2 ↔ ¬ k2 + 1 < c0.n2) ∧ (c.counter2 + 1).toNat = k2 + 1 :=
+  have C2 : (c.counter2 + 1 ≥ c0.size2.setWidth 32 ↔ ¬ k2 + 1 < c0.n2) ∧ (c.counter2 + 1).toNat = k2 + 1 :=
     cond1 c0.size2 c.counter2 k2 h2 b2
   rw [← edw, ← e0] at C0
   rw [← e1] at C1
   rw [← e2] at C2
-  change (ctr0' c ≥ c.size0 ↔ _) ∧ (ctr0' c).toNat = _ at C0
+  change (ctr0' c ≥ c.size0.setWidth 32 ↔ _) ∧ (ctr0' c).toNat = _ at C0
   have hm0 : k0 + 1 = c0.n0 → k0 = c0.n0 - 1 := by omega
   have hm1 : k1 + 1 = c0.n1 → k1 = c0.n1 - 1 := by omega
   refine ⟨?_, ?_, ?_, ?_⟩
@@ -245,7 +246,7 @@ private theorem trace_stopped (f : Nat) (c : DmaChannel) (h : c.running = 0) : t
 private theorem stops_stopped (f : Nat) (c : DmaChannel) (h : c.running = 0) : stops f c := by
   cases f <;> simp [stops, h]
 
-private theorem trace_tail (c0 : DmaChannel) (hx : ¬ Excluded c0) (fuel : Nat) :
+private theorem trace_tail (c0 : DmaChannel) (fuel : Nat) :
     ∀ (c : DmaChannel) (k2 k1 k0 : Nat), Inv c0 c k2 k1 k0 →
       (tailSpec c0 k2 k1 k0).length ≤ fuel →
       trace fuel c = tailSpec c0 k2 k1 k0 ∧ stops fuel c := by
@@ -258,7 +259,7 @@ private theorem trace_tail (c0 : DmaChannel) (hx : ¬ Excluded c0) (fuel : Nat) 
   | succ f ih =>
     intro c k2 k1 k0 h hl
     have hr : c.running ≠ 0 := by rw [h.run]; decide
-    have hstep := inv_step c0 c hx k2 k1 k0 h
+    have hstep := inv_step c0 c k2 k1 k0 h
     have hb0 := h.b0; have hb1 := h.b1; have hb2 := h.b2
     have hhead : (c.currentSrc, c.currentDst) = elemAt c0 k2 k1 k0 := by rw [elemAt, h.src, h.dst]
     simp only [trace, hr, if_false, stops, false_or, hhead]
@@ -337,13 +338,12 @@ theorem spec_length (c : DmaChannel) : (spec c).length = c.ticksBound := by
   grind
 
 /-- **The transfer visits exactly the documented element sequence, in order, and then stops.**
-For every configuration outside `Excluded` (all `size0/1/2`, `step0/1/2`, both modes; only
-`dword_mode ≠ 0 ∧ size0 = 0xFFFF` is left out, and `dma_hangs` shows it must be), the cursor pairs
+For every configuration (all `size0/1/2`, `step0/1/2`, both modes), the cursor pairs
 at which `Tick` moves an element, started by `Start`, are the closed-form list `spec c` — for any
 fuel of at least `ticksBound c = n0·n1·n2` — and the loop has ended by then. -/
-theorem dma_trace (c : DmaChannel) (hx : ¬ Excluded c) (fuel : Nat) (hf : c.ticksBound ≤ fuel) :
+theorem dma_trace (c : DmaChannel) (fuel : Nat) (hf : c.ticksBound ≤ fuel) :
     trace fuel c.start = spec c ∧ stops fuel c.start := by
-  have := trace_tail c hx fuel c.start 0 0 0 (inv_start c) (by rw [← spec_eq_tail, spec_length]; exact hf)
+  have := trace_tail c fuel c.start 0 0 0 (inv_start c) (by rw [← spec_eq_tail, spec_length]; exact hf)
   rw [spec_eq_tail]; exact this
 
 section
@@ -470,11 +470,11 @@ variable {M E : Type} [DspMem M] [ExtMem E]
 
 private theorem sameCfg_start (c : DmaChannel) : SameCfg c.start c := by simp [SameCfg, start]
 
-private theorem run_eq_fold (c : DmaChannel) (a : U16) (hx : ¬ Excluded c) (fuel : Nat) (hf : c.ticksBound ≤ fuel)
+private theorem run_eq_fold (c : DmaChannel) (a : U16) (fuel : Nat) (hf : c.ticksBound ≤ fuel)
     (w : World M E) :
     (run fuel { c.start with ahbmChannel := a } w).map Prod.snd =
       (spec c).foldlM (xferAt { c with ahbmChannel := a }) w := by
-  have ht := dma_trace { c with ahbmChannel := a } hx fuel hf
+  have ht := dma_trace { c with ahbmChannel := a } fuel hf
   have hr := run_trace fuel ({ c with ahbmChannel := a } : DmaChannel).start w ht.2
   rw [ht.1, xferAt_congr _ _ (sameCfg_start _)] at hr
   exact hr
@@ -493,23 +493,22 @@ private theorem doDma_unfold (d : Dma) (w : World M E) (ch : U16) (h : ch.toNat 
 (DSP memory, AHBM state, external memory, callback log) after `Dma::DoDma` is the left fold of
 `xferAt` — the data-moving half of `Tick` at an explicit cursor pair — over `spec`, with the same
 abort behaviour, and the interrupt count is 1.  Holds for every source/destination space. -/
-theorem dma_run_eq_fold (d : Dma) (w : World M E) (ch : U16) (h : ch.toNat < 8)
-    (hx : ¬ Excluded d.channels[ch.toNat]) :
+theorem dma_run_eq_fold (d : Dma) (w : World M E) (ch : U16) (h : ch.toNat < 8) :
     (d.doDma w ch).map (fun r => r.2) =
       ((spec d.channels[ch.toNat]).foldlM
         (xferAt { d.channels[ch.toNat] with ahbmChannel := w.ahbm.getChannelForDma ch.toNat }) w).map (·, 1) := by
-  rw [doDma_unfold d w ch h, ← run_eq_fold _ _ hx _ (Nat.le_refl _) w]
+  rw [doDma_unfold d w ch h, ← run_eq_fold _ _ _ (Nat.le_refl _) w]
   cases run _ _ w with
   | error e => rfl
   | ok r => rfl
 
-/-- **Termination.**  `Dma::DoDma` on a non-excluded channel never runs out of the fuel
-`ticksBound` the model gives it: the result is never `hang` (it is `ok`, or `oob` from a DSP-side
+/-- **Termination.**  `Dma::DoDma` never runs out of the fuel `ticksBound = n0·n1·n2` the model
+gives it: the result is never `hang` (it is `ok`, or `oob` from a DSP-side
 address outside the array / an AHBM channel index ≥ 3). -/
-theorem dma_terminates (d : Dma) (w : World M E) (ch : U16) (h : ch.toNat < 8)
-    (hx : ¬ Excluded d.channels[ch.toNat]) : d.doDma w ch ≠ .error .hang := by
+theorem dma_terminates (d : Dma) (w : World M E) (ch : U16) (h : ch.toNat < 8) :
+    d.doDma w ch ≠ .error .hang := by
   intro hh
-  have := dma_run_eq_fold d w ch h hx
+  have := dma_run_eq_fold d w ch h
   rw [hh] at this
   have ho := onlyOob_foldlM (xferAt { d.channels[ch.toNat] with ahbmChannel := w.ahbm.getChannelForDma ch.toNat })
     (fun w p => onlyOob_xfer _ w) (spec d.channels[ch.toNat]) w
@@ -559,75 +558,63 @@ private theorem append_hi (hi lo : U16) : (((hi ++ lo : U32)) >>> 16).setWidth 1
   have := lo.isLt; have := hi.isLt
   omega
 
-/-! hang -/
-def HangInv (c : DmaChannel) : Prop :=
-  c.dwordMode ≠ 0 ∧ c.size0 = 0xFFFF ∧ c.counter0.toNat % 2 = 0 ∧ c.running = 1
+/-! ## the defect that was present upstream (`u16` counters), kept as a proved witness -/
 
-private theorem hangInv_advance (c : DmaChannel) (h : HangInv c) : HangInv (advance c) := by
-  obtain ⟨hd, hs, he, hr⟩ := h
-  have hc : ¬ ctr0' c ≥ c.size0 := by
-    unfold ctr0'; rw [hs]; simp only [hd, ne_eq, not_false_eq_true, if_true]; bv_omega
-  rw [advance_0 c hc]
-  refine ⟨hd, hs, ?_, hr⟩
-  simp only [ctr0', hd, ne_eq, not_false_eq_true, if_true]; bv_omega
+/-- Invariant of the non-terminating family of the upstream code: dimension-0 counter even and
+below 2^16, still running. -/
+def HangInv (c : DmaChannel) : Prop :=
+  c.dwordMode ≠ 0 ∧ c.size0 = 0xFFFF ∧ c.counter0.toNat % 2 = 0 ∧ c.counter0.toNat < 0x10000 ∧ c.running = 1
+
+private def hangStep (c : DmaChannel) : DmaChannel :=
+  { c with counter0 := trunc16 (c.counter0 + 2),
+           currentSrc := c.currentSrc + c.srcStep0.setWidth 32,
+           currentDst := c.currentDst + c.dstStep0.setWidth 32 }
+
+private theorem hangInv_advance (c : DmaChannel) (h : HangInv c) : HangInv (advanceUpstream c) := by
+  obtain ⟨hd, hs, he, hl, hr⟩ := h
+  have hc : ¬ (trunc16 (c.counter0 + 2) ≥ c.size0.setWidth 32) := by
+    rw [hs]; unfold trunc16; bv_omega
+  have ha : advanceUpstream c = hangStep c := by
+    simp only [advanceUpstream, hd, ne_eq, not_false_eq_true, if_true, hc, if_false, hangStep]
+  rw [ha]
+  refine ⟨hd, hs, ?_, ?_, hr⟩
+  · show (trunc16 (c.counter0 + 2)).toNat % 2 = 0
+    unfold trunc16; bv_omega
+  · show (trunc16 (c.counter0 + 2)).toNat < 0x10000
+    unfold trunc16; bv_omega
 
 private theorem hangInv_start (c : DmaChannel) (a : U16) (hx : Excluded c) :
     HangInv { c.start with ahbmChannel := a } := by
   obtain ⟨hd, hs⟩ := hx
-  exact ⟨hd, hs, by simp [start], by simp [start]⟩
+  exact ⟨hd, hs, by simp [start], by simp [start], by simp [start]⟩
 
 section
 variable {M E : Type} [DspMem M] [ExtMem E]
 private theorem run_hangs (fuel : Nat) : ∀ (c : DmaChannel) (w : World M E), HangInv c →
-    ∀ r, run fuel c w ≠ .ok r := by
+    ∀ r, runUpstream fuel c w ≠ .ok r := by
   induction fuel with
   | zero =>
     intro c w h r hr
-    have hn : ¬ (c.running = 0) := by rw [h.2.2.2]; decide
-    simp only [run] at hr
+    have hn : ¬ (c.running = 0) := by rw [h.2.2.2.2]; decide
+    simp only [runUpstream] at hr
     rw [if_neg hn] at hr; cases hr
   | succ f ih =>
     intro c w h r hr
-    have hn : c.running ≠ 0 := by rw [h.2.2.2]; decide
-    simp only [run, hn, if_false, tick] at hr
+    have hn : ¬ (c.running = 0) := by rw [h.2.2.2.2]; decide
+    simp only [runUpstream, hn, if_false] at hr
     cases hx : xfer c w with
     | error e => rw [hx] at hr; cases hr
     | ok w' => rw [hx] at hr; exact ih _ w' (hangInv_advance c h) r hr
+
+/-- **The repaired defect, as a witness.**  With the upstream `u16` counters, a channel in
+double-word mode with `size0 = 0xFFFF` never finished: `counter0 += 2` stepped 0xFFFE → 0 and was
+never `≥ size0`, so for no amount of fuel did the upstream loop answer `ok` (`Dma::DoDma` did not
+return and raised no interrupt).  The repaired `advance` (32-bit counters) is covered by
+`dma_terminates` without exception. -/
+theorem dma_hangs_upstream (c : DmaChannel) (a : U16) (hx : Excluded c) (fuel : Nat) (w : World M E) :
+    ∀ r, runUpstream fuel { c.start with ahbmChannel := a } w ≠ .ok r :=
+  run_hangs fuel _ w (hangInv_start c a hx)
 end
-
-private theorem trace_hangs (fuel : Nat) : ∀ (c : DmaChannel), HangInv c → (trace fuel c).length = fuel := by
-  induction fuel with
-  | zero => intro c _; rfl
-  | succ f ih =>
-    intro c h
-    have hn : ¬ (c.running = 0) := by rw [h.2.2.2]; decide
-    simp only [trace]
-    rw [if_neg hn, List.length_cons, ih _ (hangInv_advance c h)]
-
-section
-variable {M E : Type} [DspMem M] [ExtMem E]
-/-- **Finding: a configuration on which `Dma::DoDma` does not return.**  In double-word mode with
-`size0 = 0xFFFF` no amount of fuel lets the loop finish: `doDmaFuel` never answers `ok` (it answers
-`hang`, or `oob` if a cursor leaves the array first), so the interrupt is never raised. -/
-theorem dma_hangs (d : Dma) (w : World M E) (ch : U16) (h : ch.toNat < 8)
-    (hx : Excluded d.channels[ch.toNat]) (fuel : Nat) :
-    ∀ r, d.doDmaFuel fuel w ch ≠ .ok r := by
-  intro r hr
-  unfold Dma.doDmaFuel at hr
-  rw [dif_pos h] at hr
-  simp only [] at hr
-  split at hr
-  · rename_i c' w' heq
-    exact run_hangs fuel _ w (hangInv_start _ _ hx) _ heq
-  · cases hr
-end
-
-/-- The excluded points really are different: on `Excluded` configurations the trace has one
-element per unit of fuel, for every fuel — it is never the finite list `spec c`. -/
-theorem dma_trace_excluded (c : DmaChannel) (hx : Excluded c) (fuel : Nat) :
-    (trace fuel c.start).length = fuel := by
-  have := trace_hangs fuel _ (hangInv_start c c.start.ahbmChannel hx)
-  exact this
 
 section
 variable {M E : Type} [DspMem M] [ExtMem E]
@@ -678,12 +665,11 @@ private theorem foldlM_dsp (c : DmaChannel) (hs : c.srcSpace = 0) (hd : c.dstSpa
 sequence** (so overlapping ranges behave like a sequential copy), nothing else in the world
 changes, and the interrupt is raised once. -/
 theorem dma_memory (d : Dma) (w : World M E) (ch : U16) (h : ch.toNat < 8)
-    (hx : ¬ Excluded d.channels[ch.toNat])
     (hs : d.channels[ch.toNat].srcSpace = 0) (hd : d.channels[ch.toNat].dstSpace = 0) :
     (d.doDma w ch).map (fun r => r.2) =
       ((spec d.channels[ch.toNat]).foldlM (copyElem (decide (d.channels[ch.toNat].dwordMode ≠ 0))) w.mem).map
         (fun m => ({ w with mem := m }, 1)) := by
-  rw [dma_run_eq_fold d w ch h hx,
+  rw [dma_run_eq_fold d w ch h,
     foldlM_dsp { d.channels[ch.toNat] with ahbmChannel := w.ahbm.getChannelForDma ch.toNat } hs hd]
   cases (spec d.channels[ch.toNat]).foldlM (copyElem (decide (d.channels[ch.toNat].dwordMode ≠ 0))) w.mem <;> rfl
 
@@ -751,21 +737,31 @@ theorem spec_docExample :
       [0, 2, 4, 5, 7, 9, 10, 12, 14, 15, 17, 19, 20, 22, 24,
        31, 33, 35, 36, 38, 40, 41, 43, 45, 46, 48, 50, 51, 53, 55] := by decide
 
-example : ¬ Excluded docExample ∧ docExample.ticksBound = 30 := by decide
-example : trace 30 docExample.start = spec docExample := (dma_trace docExample (by decide) 30 (by decide)).1
+example : docExample.ticksBound = 30 := by decide
+example : trace 30 docExample.start = spec docExample := (dma_trace docExample 30 (by decide)).1
 /-- zero sizes count as one; double-word mode counts dimension 0 by two (`size0 = 5` → 3 elements). -/
 example : (spec { size0 := 0, size1 := 0, size2 := 0 }).length = 1 ∧
     (spec { size0 := 5, size1 := 2, dwordMode := 1 }).length = 6 := by decide
 /-- steps are unsigned: a step of 0xFFFF moves the cursor *up* by 65535. -/
 example : (spec { size0 := 2, srcStep0 := 0xFFFF, addrSrcLow := 1 }).map (·.1.toNat) = [1, 0x10000] := by decide
-example : Excluded { dwordMode := 1, size0 := 0xFFFF } := by decide
-/-- the last terminating double-word size: `size0 = 0xFFFE` gives 0x7FFF elements. -/
-example : ¬ Excluded { dwordMode := 1, size0 := 0xFFFE } ∧
-    ({ dwordMode := 1, size0 := 0xFFFE } : DmaChannel).ticksBound = 0x7FFF := by decide
-/-- two ticks of the excluded family, concretely: the counter passes 0xFFFE → 0 and keeps running. -/
+/-- the closed form at the two largest double-word sizes: `size0 = 0xFFFF` is 0x8000 elements per
+dimension-0 stride, `size0 = 0xFFFE` is 0x7FFF. -/
+example : ({ dwordMode := 1, size0 := 0xFFFF } : DmaChannel).ticksBound = 0x8000 ∧
+    ({ dwordMode := 1, size0 := 0xFFFE } : DmaChannel).ticksBound = 0x7FFF ∧
+    ({ dwordMode := 1, size0 := 0xFFFF, size1 := 3, size2 := 2 } : DmaChannel).ticksBound = 0x30000 := by decide
+/-- the last tick of such a stride, repaired code: 0xFFFE + 2 = 0x10000 ≥ 0xFFFF ends the stride
+(and here the transfer) … -/
 example : (advance { dwordMode := 1, size0 := 0xFFFF, counter0 := 0xFFFE, running := 1 }).counter0 = 0 ∧
-    (advance { dwordMode := 1, size0 := 0xFFFF, counter0 := 0xFFFE, running := 1 }).running = 1 := by decide
-
+    (advance { dwordMode := 1, size0 := 0xFFFF, counter0 := 0xFFFE, running := 1 }).running = 0 := by decide
+/-- … where the upstream `u16` counter wrapped to 0 and kept running. -/
+example : Excluded { dwordMode := 1, size0 := 0xFFFF } ∧
+    (advanceUpstream { dwordMode := 1, size0 := 0xFFFF, counter0 := 0xFFFE, running := 1 }).counter0 = 0 ∧
+    (advanceUpstream { dwordMode := 1, size0 := 0xFFFF, counter0 := 0xFFFE, running := 1 }).running = 1 := by
+  decide
+/-- off the excluded family the upstream and the repaired counter step agree, e.g. at the largest
+terminating upstream size. -/
+example : advanceUpstream { dwordMode := 1, size0 := 0xFFFE, counter0 := 0xFFFC, running := 1 } =
+    advance { dwordMode := 1, size0 := 0xFFFE, counter0 := 0xFFFC, running := 1 } := by decide
 
 /-! ## AHBM: unit-exact accesses and burst transparency -/
 namespace AhbmChannel
